@@ -160,9 +160,24 @@ def l5(ctx: Ctx):
     ctx.idiom("load:records-callees", bool(upd), ok5, "" if ok5 else "callees are not recorded under the procedure being read", file=PROCBANK_REL, line=add.lineno)
     # convert(): library first, then the program, then the closure of the program's own name
     P = pipeline(ctx)
-    csrc = unparse(P.fn)
-    i1, i2, i3 = csrc.find("add_from_resource('ecb.b09')"), csrc.find("add_from_str(program)"), csrc.find("get_procedure_and_dependencies(procname)")
-    ok6 = 0 <= i1 < i2 < i3
+    # slots in execution (depth-first) order: the library resource, the text the program emitted, the closure of the procedure name
+    order_: Dict[int, int] = {}
+    for i_, n_ in enumerate(ast.walk(P.fn)):
+        order_[id(n_)] = i_
+    seq_: List[ast.AST] = []
+
+    def _dfs(n_):
+        seq_.append(n_)
+        for c_ in ast.iter_child_nodes(n_):
+            _dfs(c_)
+
+    _dfs(P.fn)
+    pos_ = {id(n_): i_ for i_, n_ in enumerate(seq_)}
+    emitted_names = {a.targets[0].id for a in ast.walk(P.fn) if isinstance(a, ast.Assign) and len(a.targets) == 1 and isinstance(a.targets[0], ast.Name) and isinstance(a.value, ast.Call) and isinstance(a.value.func, ast.Attribute) and a.value.func.attr == "basic09_text"}
+    c1 = [c for c in seq_ if isinstance(c, ast.Call) and call_name(c) == "add_from_resource" and c.args and isinstance(c.args[0], ast.Constant) and c.args[0].value == "ecb.b09"]
+    c2 = [c for c in seq_ if isinstance(c, ast.Call) and call_name(c) == "add_from_str" and c.args and isinstance(c.args[0], ast.Name) and c.args[0].id in emitted_names]
+    c3 = [c for c in seq_ if isinstance(c, ast.Call) and call_name(c) == "get_procedure_and_dependencies" and c.args and isinstance(c.args[0], ast.Name) and c.args[0].id == "procname"]
+    ok6 = bool(c1 and c2 and c3) and pos_[id(c1[0])] < pos_[id(c2[0])] < pos_[id(c3[0])]
     ctx.ob("convert:feeds-bank", ok6, "" if ok6 else "convert() does not load ecb.b09, then the emitted program, then ask for the closure of procname", file=COMPILER_REL, line=P.fn.lineno)
 
 
